@@ -729,6 +729,9 @@ pub enum Op {
     MapPre(u8, u8),
     /// Same, but the server entity starts without the replication marker (`Mark` comes later).
     MapPreUnmarked(u8, u8),
+    /// Like `MapPre`, but the server entity has A and B and the client's pre-spawned entity
+    /// already carries a predicted copy of B.
+    MapPrePredicted(u8, u8),
     /// Client `c` pre-spawns an entity for an *existing* server entity that is still hidden from
     /// it; the server registers the mapping (visibility is granted by a later operation).
     MapLate(u8, u8),
@@ -786,6 +789,7 @@ impl Op {
             Op::MapPreUnmarked(c, s) => format!("prespawn on c{c} + map unmarked e{}", s + 1),
             Op::MapPreEarly(c, s) => format!("prespawn on unauthorized c{c} + map e{}", s + 1),
             Op::MapLate(c, s) => format!("prespawn on c{c} + map existing hidden e{}", s + 1),
+            Op::MapPrePredicted(c, s) => format!("prespawn with predicted B on c{c} + map e{}{{A,B}}", s + 1),
             Op::DespawnPre(c, s) => format!("c{c} despawns its prespawned entity for e{}", s + 1),
         }
     }
@@ -1153,7 +1157,7 @@ impl Sim {
             Op::ClearOwner(s) => self.alive(s).is_some_and(|e| self.server.world().get::<OwnedBy>(e).is_some()),
             Op::InsBig(s, _) => self.alive(s).is_some_and(|e| !self.has_tag(e, TBIG)),
             Op::MutBig(s, _) => self.alive(s).is_some_and(|e| self.has_tag(e, TBIG)),
-            Op::MapPre(c, s) | Op::MapPreUnmarked(c, s) => {
+            Op::MapPre(c, s) | Op::MapPreUnmarked(c, s) | Op::MapPrePredicted(c, s) => {
                 self.alive(s).is_none()
                     && !self.prespawned.contains_key(&(c as usize, s))
                     && self.is_authorized(c as usize)
@@ -1256,6 +1260,10 @@ impl Sim {
                         self.last_edit.insert((s + 1, t), (v, None));
                     }
                 }
+            }
+            Op::MapPrePredicted(_, s) => {
+                self.last_edit.insert((s + 1, TA), (v, None));
+                self.last_edit.insert((s + 1, TB), (v, None));
             }
             Op::MapPre(_, s) | Op::MapPreUnmarked(_, s) | Op::MapPreEarly(_, s) => {
                 self.last_edit.insert((s + 1, TA), (v, None));
@@ -1434,6 +1442,19 @@ impl Sim {
                 self.prespawned.insert((c as usize, s), pre);
                 self.late_map_tick.insert((c as usize, s), None);
                 let id = self.alive(s).unwrap();
+                let conn = self.clients[c as usize].conn.unwrap();
+                self.server
+                    .world_mut()
+                    .get_mut::<ClientEntityMap>(conn)
+                    .expect("authorized client has an entity map")
+                    .insert(id, pre);
+            }
+            Op::MapPrePredicted(c, s) => {
+                let etag = s + 1;
+                let pre = self.clients[c as usize].app.world_mut().spawn(B(val(etag, TB, 0))).id();
+                self.prespawned.insert((c as usize, s), pre);
+                let id = self.server.world_mut().spawn((Replicated, A(val(etag, TA, v)), B(val(etag, TB, v)))).id();
+                self.ents[s as usize] = Some(id);
                 let conn = self.clients[c as usize].conn.unwrap();
                 self.server
                     .world_mut()
